@@ -136,6 +136,9 @@ def run_doc_case(case, env, focus, stats, syntax_compilers=()):
         _bump(probes, "documents_accepted")
         b = build.build_driver(doc["type_name"], tr["ui"], tr["header"], workdir, syntax_compilers=syntax_compilers)
         stats["sim_steps"]["translation_units_compiled"] = stats["sim_steps"].get("translation_units_compiled", 0) + 1
+        if focus == "build":
+            for v in scan_facilities(tr["header"], doc):
+                viol.append(v)
         if b["errors"]:
             _bump(probes, "documents_whose_header_failed_to_compile")
             if focus == "build":
@@ -243,6 +246,25 @@ def run_doc_case(case, env, focus, stats, syntax_compilers=()):
         return viol, fps, sample
     finally:
         shutil.rmtree(workdir, ignore_errors=True)
+
+
+FACILITIES = [  # (regex over the header text, header that declares it)
+    (r"\bstd::(max|min)\b", "algorithm"), (r"\bstd::fmod\b", "cmath"), (r"\bq(Debug|Info|Warning|Critical)\s*\(", "QtDebug"),
+]
+
+
+def scan_facilities(header, doc):
+    """token-level scan: each standard or Qt facility used by the header is included by the header itself
+    (libstdc++ and qglobal.h make std::max visible through almost any header, so a compiler cannot tell)"""
+    import re
+    out = []
+    incs = set(re.findall(r"^#include <([^>]+)>", header, re.M))
+    for rx_, inc in FACILITIES:
+        m = re.search(rx_, header)
+        if m and inc not in incs:
+            out.append(V("include", "c16:missing-include:" + inc, "the header uses %s but does not #include <%s> (includes: %s)\n--- document\n%s"
+                         % (m.group(0), inc, sorted(incs), doc["qml"][:2500])))
+    return out
 
 
 def hash_text(t):
